@@ -289,7 +289,9 @@ func (g *Gen) restArgs(f *gfunc) string {
 func (g *Gen) call(f *gfunc, depth int) string {
 	var args []string
 	named := g.r.Chance(1, 5)
+	star := false
 	if f.npos > 0 && g.r.Chance(1, 6) && !named {
+		star = true
 		// *sequence form
 		var xs []string
 		for i := 0; i < f.npos; i++ {
@@ -320,11 +322,11 @@ func (g *Gen) call(f *gfunc, depth int) string {
 			args = append(args, g.expr(kInt, depth-1))
 		}
 	}
-	if f.kwonly > 0 && g.r.Bool() {
+	if f.kwonly > 0 && g.r.Bool() && !star {
 		args = append(args, fmt.Sprintf("k0=%s", g.expr(kInt, depth-1)))
 	}
 	if f.kwargs && g.r.Bool() {
-		if g.r.Bool() {
+		if g.r.Bool() && !star {
 			args = append(args, fmt.Sprintf("zz=%s", g.expr(kInt, depth-1)))
 		} else {
 			args = append(args, fmt.Sprintf("**{%q: %s}", g.fresh("kw"), g.expr(kInt, depth-1)))
